@@ -1,0 +1,16 @@
+//! verification hook: snapshot of a `SyncLayer` (child module, read-only)
+use super::SyncLayer;
+use crate::verif::SyncSnap;
+use crate::Config;
+
+impl<T: Config> SyncLayer<T> {
+    pub(crate) fn verif_snap(&self) -> SyncSnap {
+        SyncSnap {
+            current_frame: self.current_frame,
+            last_confirmed: self.last_confirmed_frame,
+            last_saved: self.last_saved_frame,
+            cells: self.saved_states.states.iter().map(|c| c.frame()).collect(),
+            queues: self.input_queues.iter().map(|q| q.verif_snap()).collect(),
+        }
+    }
+}
